@@ -11,13 +11,137 @@ import (
 	"sync"
 	"testing"
 
+	"github.com/openacid/low/bitmap"
+	"github.com/openacid/low/bitstr"
+	"github.com/openacid/low/bitword"
+	"github.com/openacid/low/bmtree"
+	"github.com/openacid/low/sigbits"
+
+	"verif/harness/model"
+
 	"pgregory.net/rapid"
 
 	"verif/harness/gen"
 	"verif/harness/vk"
 )
 
+// coldStart is the very first use of the library in this process, made by several goroutines at
+// once: every goroutine starts with a different function (queries before any builder, each bitword
+// width, each package), so lazily initialised state is first touched concurrently. Results are
+// compared with fixed expectations; in the race build the detector watches. A failure here can only
+// be observed at process start, so the probe result is kept and reported by TestColdStart.
+var coldStartResult string
+
+func coldStartProbe() {
+	type probe struct {
+		name string
+		fn   func() string
+		want string
+	}
+	w := []uint64{0x8000000000010100, 0, 0xb5}
+	sidx, ridx := []int32{8}, []int32{0, 3, 3, 8}
+	probes := []probe{
+		{"bitmap.Select32 with an index not built in this process", func() string { return fmt.Sprint(bitmap.Select32(w, sidx, 4)) }, "130 132"},
+		{"bitmap.Select32R64 with indexes not built in this process", func() string { return fmt.Sprint(bitmap.Select32R64(w, sidx, ridx, 2)) }, "63 128"},
+		{"bitmap.Rank64", func() string { return fmt.Sprint(bitmap.Rank64(w, ridx, 131)) }, "5 0"},
+		{"bitword[1].Get", func() string { return fmt.Sprint(bitword.BitWord[1].Get("\x80\xff", 8)) }, "1"},
+		{"bitword[2].FirstDiff", func() string { return fmt.Sprint(bitword.BitWord[2].FirstDiff("\xffa", "\xffb", 0, -1)) }, "7"},
+		{"bitword[4].Get", func() string { return fmt.Sprint(bitword.BitWord[4].Get("\xf1\x2e", 3)) }, "14"},
+		{"bitword[1].FromStr", func() string { return fmt.Sprint(bitword.BitWord[1].FromStr("\x81")) }, "[1 0 0 0 0 0 0 1]"},
+		{"bitword[2].FromStr", func() string { return fmt.Sprint(bitword.BitWord[2].FromStr("\x1b")) }, "[0 1 2 3]"},
+		{"bitword[4].ToStr", func() string { return fmt.Sprintf("%x", bitword.BitWord[4].ToStr([]byte{6, 1, 6})) }, "6160"},
+		{"bmtree.PathToIndexLoose", func() string { return fmt.Sprint(bmtree.PathToIndexLoose(0x5, model.PathWord(1, 2, 2))) }, wantLoose(0x5, 1, 2)},
+		{"bmtree.PathToIndex", func() string { return fmt.Sprint(bmtree.PathToIndex(0xd, model.PathWord(3, 2, 3))) }, wantStrict(0xd, 3, 2)},
+		{"bmtree.IndexToPath", func() string { return fmt.Sprintf("%#x", bmtree.IndexToPath(6, 40)) }, wantIndexToPath(6, 40)},
+		{"bmtree.PathStr", func() string { return bmtree.PathStr(model.PathWord(5, 3, 9)) }, "101"},
+		{"bmtree.Decode", func() string { return fmt.Sprintf("%#x", bmtree.Decode(0x7, []uint64{0x2a})) }, wantDecode(0x7, 0x2a)},
+		{"bitstr.StrCmpUpto", func() string { return fmt.Sprint(bitstr.StrCmpUpto("ab", bitstr.New("abc", 0, 12))) }, "0"},
+		{"sigbits.FirstDiffBits", func() string { return fmt.Sprint(sigbits.FirstDiffBits([]string{"ab", "ac", "b"})) }, "[15 6]"},
+		{"sigbits.ShardByPrefix", func() string { return fmt.Sprint(sigbits.ShardByPrefix([]string{"aa", "ab", "b"}, 2)) }, "[1 1] [0 2 3]"},
+	}
+	// the fixed expectations above come from the definitions; the independent oracles re-derive two of them
+	if raceBuild {
+		enc, _ := json.Marshal(Case{Op: "cold-start"})
+		fc := vk.FileCase{Property: "C19", Kind: "data-race", Message: "the race detector reported conflicting unsynchronised accesses during the concurrent first use of the library in this process (report in the run's log)", Case: enc}
+		b, _ := json.Marshal(fc)
+		_ = os.WriteFile(filepath.Join(vk.OutDir(), "race-pending.json"), b, 0o644)
+	}
+	res := make([]string, len(probes)*2)
+	var start, done sync.WaitGroup
+	start.Add(1)
+	for gi := range res {
+		done.Add(1)
+		go func(gi int) {
+			defer done.Done()
+			defer func() {
+				if r := recover(); r != nil {
+					res[gi] = fmt.Sprintf("panic: %v", r)
+				}
+			}()
+			start.Wait()
+			res[gi] = probes[gi%len(probes)].fn()
+		}(gi)
+	}
+	start.Done()
+	done.Wait()
+	if raceBuild {
+		_ = os.Remove(filepath.Join(vk.OutDir(), "race-pending.json"))
+	}
+	for gi, r := range res {
+		if p := probes[gi%len(probes)]; r != p.want {
+			coldStartResult = fmt.Sprintf("concurrent first use of the library in this process: %s returned %s, want %s", p.name, r, p.want)
+			return
+		}
+	}
+}
+
+// expectations of the cold-start probes, from the oracles (none of them calls the library)
+func wantLoose(mask int32, prefix uint64, l int) string {
+	i, has := model.NewTree(mask).Index(prefix, l)
+	h := 0
+	if has {
+		h = 1
+	}
+	return fmt.Sprint(i, h)
+}
+
+func wantStrict(mask int32, prefix uint64, l int) string {
+	i, _ := model.NewTree(mask).Index(prefix, l)
+	return fmt.Sprint(i)
+}
+
+func wantIndexToPath(h int, idx int64) string {
+	out := ""
+	tr := model.NewTree(int32(1)<<uint(h+1) - 1)
+	tr.Walk(func(prefix uint64, l int, _ bool, index int64) {
+		if index == idx {
+			out = fmt.Sprintf("%#x", model.PathWord(prefix, l, h))
+		}
+	})
+	return out
+}
+
+func wantDecode(mask int32, bm uint64) string {
+	var out []uint64
+	tr := model.NewTree(mask)
+	tr.Walk(func(prefix uint64, l int, st bool, index int64) {
+		if st && bm>>uint(index)&1 == 1 {
+			out = append(out, model.PathWord(prefix, l, tr.H))
+		}
+	})
+	return fmt.Sprintf("%#x", out)
+}
+
+func TestColdStart(t *testing.T) {
+	vk.SetPhase("coldstart")
+	vk.Label("cold-start-probe", 1)
+	if coldStartResult != "" {
+		checker.Run(t, Case{Op: "cold-start"})
+	}
+}
+
 func TestMain(m *testing.M) {
+	coldStartProbe()
 	vk.SetExtra("hooks", hooksOn)
 	if raceBuild {
 		vk.SetExtra("race_detector_build_evaluated", true)
@@ -64,6 +188,9 @@ func nonEmptyArgs(a Args) bool {
 }
 
 func classify(c Case) (bool, []string) {
+	if c.Op == "cold-start" {
+		return false, []string{"cold-start-failure"}
+	}
 	labels := []string{"op:" + c.Op}
 	if raceBuild {
 		labels = append(labels, "build:race")
@@ -314,6 +441,12 @@ func gcd(a, b int) int {
 }
 
 func check(c Case) *vk.Failure {
+	if c.Op == "cold-start" {
+		if coldStartResult != "" {
+			return vk.Failf("cold-start", "%s", coldStartResult)
+		}
+		return nil
+	}
 	if len(c.Calls) == 0 {
 		return nil
 	}
